@@ -129,3 +129,36 @@ Example ex_crn_parallel_events :
   ex_events true 2 = ex_events false 0 /\
   snd (build ex_cfg true 3 ex_tbl ex_seeds) = [6; 14].
 Proof. vm_compute. repeat split. Qed.
+
+(** ** joblib.Parallel over rows: validate_smiles / dicts_balance_check *)
+
+Lemma rows_parallel_eq {A B} n_jobs (f : A -> B) rows : rows_parallel n_jobs f rows = map f rows.
+Proof. unfold rows_parallel. destruct (1 <? n_jobs); [apply par_map_eq_map|reflexivity]. Qed.
+
+Lemma main_validate_workers :
+  forall (A : Type) (n_jobs : nat) (check : A -> bool) (rows : list A),
+  validate_column n_jobs check rows = validate_column 1 check rows /\
+  fst (validate_column n_jobs check rows) = map check rows.
+Proof. intros. unfold validate_column. rewrite !rows_parallel_eq. split; reflexivity. Qed.
+
+Lemma filter_map_fst {A} (check : A -> bool) (want : bool) rows :
+  map fst (filter (fun p : A * bool => if want then snd p else negb (snd p)) (map (fun r => (r, check r)) rows)) =
+  filter (fun r => if want then check r else negb (check r)) rows.
+Proof.
+  induction rows as [|r rows IH]; simpl; [reflexivity|].
+  destruct want; destruct (check r); simpl; now rewrite IH.
+Qed.
+
+Lemma main_balance_workers :
+  forall (A : Type) (n_jobs : nat) (check : A -> bool) (rows : list A),
+  balance_split n_jobs check rows = (filter check rows, filter (fun r => negb (check r)) rows).
+Proof.
+  intros. unfold balance_split. rewrite rows_parallel_eq. f_equal.
+  - apply (filter_map_fst check true).
+  - apply (filter_map_fst check false).
+Qed.
+
+Example ex_rows_parallel :
+  fst (validate_column 3 Nat.even [1; 2; 3; 4; 5; 6; 7]) = [false; true; false; true; false; true; false] /\
+  balance_split 2 Nat.even [1; 2; 3; 4; 5] = ([2; 4], [1; 3; 5]).
+Proof. vm_compute. split; reflexivity. Qed.
